@@ -32,7 +32,7 @@ ASSUMPTIONS = [
 ]
 TRUSTED = ["pydantic 2.x (executed)", "json (executed)", "vt.sym explorer"]
 BOUNDS = {"parameters": "<= 3 quick, <= 4 thorough", "value classes per kind": "2-3", "serializer": "bundled JSON"}
-REQUIRED_COVERS = ["converted", "not_convertible_unchanged", "unannotated_unchanged", "validate_off", "keyword", "positional", "kwonly", "dep", "model", "none_value", "second_message", "varkw"]
+REQUIRED_COVERS = ["converted", "not_convertible_unchanged", "unannotated_unchanged", "validate_off", "keyword", "positional", "kwonly", "dep", "model", "none_value", "second_message", "varkw", "default_noconv", "default_absent"]
 
 
 class PModel(pydantic.BaseModel):
@@ -54,7 +54,7 @@ class DC:
     s: str = "s"
 
 
-KINDS = ("plain", "any", "int", "str", "model", "dc", "dep", "float", "modeld")
+KINDS = ("plain", "any", "int", "str", "model", "dc", "dep", "float", "modeld", "intd")
 # value classes per kind: (label, value sent, value expected when validation on, expected when off)
 VALUES: Dict[str, List[Any]] = {
     "plain": [("strnum", "5", "5", "5"), ("dict", {"q": 1}, {"q": 1}, {"q": 1})],
@@ -66,6 +66,8 @@ VALUES: Dict[str, List[Any]] = {
     "dc": [("inst", DC(q=4), DC(q=4), {"q": 4, "s": "s"}), ("noconv", "zz", "zz", "zz")],
     "dep": [("absent", None, 99, 99), ("explicit", 50, 50, 50)],
     "float": [("zero", 0, 0.0, 0), ("conv", "2.5", 2.5, "2.5")],
+    # an annotated parameter with an ordinary default: the default is used only when the caller passed nothing
+    "intd": [("conv", "5", 5, "5"), ("noconv", "zz", "zz", "zz"), ("absent", None, 7, 7)],
 }
 
 
@@ -85,12 +87,12 @@ def _dep() -> int:
 def build_function(kinds: List[str], kwonly_from: int, rec: Dict[str, Any], varkw: bool = False) -> Any:
     from taskiq import TaskiqDepends
 
-    ann = {"plain": "", "any": ": Any", "int": ": int", "str": ": str", "model": ": PModel", "dc": ": DC", "dep": ": int", "float": ": float", "modeld": ": PDefaults"}
+    ann = {"plain": "", "any": ": Any", "int": ": int", "str": ": str", "model": ": PModel", "dc": ": DC", "dep": ": int", "float": ": float", "modeld": ": PDefaults", "intd": ": int"}
     parts = []
     for i, k in enumerate(kinds):
         if i == kwonly_from:
             parts.append("*")
-        default = " = TaskiqDepends(_dep)" if k == "dep" else ""
+        default = " = TaskiqDepends(_dep)" if k == "dep" else (" = 7" if k == "intd" else "")
         parts.append(f"p{i}{ann[k]}{default}")
     if varkw:
         parts.append("**extra")
@@ -112,13 +114,13 @@ def harness(c: sym.Ctx, case: Dict[str, Any]) -> None:
     pos_region = kinds[:kwonly_from]
     seen_dep = False
     for k in pos_region:
-        if k == "dep":
+        if k in ("dep", "intd"):
             seen_dep = True
         elif seen_dep:
             raise sym.Abort("non-default parameter after default one")
     vals = [c.choose(len(VALUES[k]), f"val{i}") for i, k in enumerate(kinds)]
     # the caller passes the first `npos` non-dependency positional-capable parameters positionally, the rest by keyword
-    passable = [i for i, k in enumerate(kinds) if k != "dep" or VALUES[k][vals[i]][0] == "explicit"]
+    passable = [i for i, k in enumerate(kinds) if VALUES[k][vals[i]][0] != "absent"]
     pos_capable = [i for i in passable if i < kwonly_from and kinds[i] != "dep"]
     # positional passing must be a prefix of the parameter list (no dependency parameter in between)
     max_pos = 0
@@ -190,6 +192,8 @@ def harness(c: sym.Ctx, case: Dict[str, Any]) -> None:
                 label, sent, want_on, want_off = VALUES[k][0]
                 if k == "dep":
                     want2: Any = 99
+                elif VALUES[k][vals[i]][0] == "absent":
+                    want2 = VALUES[k][vals[i]][2]  # not passed in either message: the parameter's own default
                 else:
                     want2 = want_on if validate else want_off
                 got2 = second_rec.get(f"p{i}", "<missing>")
@@ -216,6 +220,8 @@ def harness(c: sym.Ctx, case: Dict[str, Any]) -> None:
         got = rec.get(f"p{i}", "<missing>")
         if k == "dep":
             c.cover("dep")
+        if k == "intd":
+            c.cover("default_" + label)
         if k in ("model", "dc", "modeld"):
             c.cover("model")
         if label == "none":
